@@ -28,7 +28,8 @@ def run(ctx):
     rehash_rules(ctx)
     tree_effects_unconditional(ctx, 'C01')
     # a storage error while re-hashing must fail the publish, never count as an absent child (seed C01-r2-a)
-    ds.err_swallow(ctx, 'C01', ['akd::append_only_zks::', 'akd::tree_node::'], ds.SWALLOW_EXC)
+    # (3 such matches exist without the greedy-preload feature, 5 with it)
+    ds.err_swallow(ctx, 'C01', ['akd::append_only_zks::', 'akd::tree_node::'], ds.SWALLOW_EXC, min_sites=3)
     for name, pre in c18.CFGS:
         flow_complete(ctx, 'C01.F.leaf[%s]' % name, prog.one(pre + 'hash_leaf_with_commitment'), ['commitment', 'epoch'], 'leaf hash')
         flow_complete(ctx, 'C01.F.parent[%s]' % name, prog.one(pre + 'compute_parent_hash_from_children'),
